@@ -807,7 +807,105 @@ class C17(Prop):
                               'real pools was designed (DESIGN 3.5) but not built', 'mode_vectors': MODE_VECTORS}
 
 
-PROPS = {c.id: c for c in (C01, C02, C03, C04, C05, C06, C07, C08, C09, C10, C11, C12, C13, C14, C17, C19)}
+class C18(Prop):
+    id = 'C18'
+    level = 'fault_enumeration'
+    no_shrink = True
+    rule = ('Hypothesis stateful machine (outside pytest, one PRNG value per case) over the real '
+            'FileSystemArtifactStore on a fresh directory vs a dict model: save / load / save-with-faults over 1-3 '
+            'contexts sharing the directory, both formats, keys biased to dots, glob metacharacters and prefixes / '
+            'extensions of earlier keys. save-with-faults fails open() once and then EVERY write call index of that '
+            'save once (torn write + ENOSPC), checking after each failure that the key is absent and finally that a '
+            'clean save succeeds. non-trivial = an injected fault fired or an aliasing-prone key pair was exercised; '
+            'distinct = distinct operation sequences')
+    components = {
+        'real': ['FileSystemArtifactStore', 'serializers (pickle/json)', 'real files in a fresh temp directory'],
+        'simulated': ['pathlib.Path inside the store module replaced by a fault-injecting subclass (open errors, '
+                      'failing k-th write with a torn half-chunk)'],
+        'generated': ['operation sequences (Hypothesis RuleBasedStateMachine)', 'pipeline contexts'],
+    }
+
+    def gen(self, rng):
+        return {'hyp_seed': rng.randrange(1 << 30), 'spec': {'nodes': [], 'class': 'fsstore'}}
+
+    @staticmethod
+    def classify(msg):
+        if 'aliasing' in msg:
+            return 'keys_alias'
+        if 'appears saved' in msg:
+            return 'failed_save_blocks_key'
+        if 'after a failed save' in msg:
+            return 'failed_save_leaves_artifact'
+        if msg.startswith('save(') and 'raised' in msg:
+            return 'save_raises'
+        if 'ArtifactDoesNotExist' in msg:
+            return 'saved_key_missing'
+        if 'second save' in msg:
+            return 'second_save_accepted'
+        if 'returned' in msg:
+            return 'load_returns_other_value'
+        return 'store_model_mismatch'
+
+    def evaluate(self, case, stats=None):
+        from . import fsstore_machine as fm
+        if 'ops' in case:
+            v, st = fm.run_ops(fm.unjson(case['ops']))
+            if v is None:
+                return []
+            return [{'property': 'C18', 'clause': self.classify(v['what']), 'detail': v['what'], 'case': case,
+                     'log_digest': fm.ops_digest(case['ops']), 'status': 'done', 'outcomes': []}]
+        from hypothesis import HealthCheck, seed, settings
+        from hypothesis.stateful import run_state_machine_as_test
+        Machine = fm.build_machine()
+        seen = []
+
+        def sink(h):
+            seen.append((fm.ops_digest(h.ops), dict(h.stats), len(h.ops)))
+
+        Machine.STATS_SINK = staticmethod(sink)
+        n = 12 if self.tier == 'quick' else 40
+        err = None
+        try:
+            run_state_machine_as_test(
+                seed(case['hyp_seed'])(Machine),
+                settings=settings(database=None, deadline=None, report_multiple_bugs=False, max_examples=n,
+                                  stateful_step_count=10, suppress_health_check=list(HealthCheck)),
+            )
+        except AssertionError as ex:
+            err = str(ex)
+        finally:
+            if Machine.LAST is not None:
+                Machine.LAST.close()
+        if stats is not None:
+            stats.cases += 1
+            for dg, st_, nops in seen:
+                stats.evaluations += 1
+                key = h64('C18', dg)
+                stats.distinct.add(key)
+                if st_['faults_fired'] or st_['alias_pairs']:
+                    stats.nontrivial.add(key)
+                stats.fault_hits['disk_fault_fired'] = stats.fault_hits.get('disk_fault_fired', 0) + st_['faults_fired']
+                stats.probe('alias_prone_key_pairs', st_['alias_pairs'])
+                stats.probe('write_call_indices_failed', st_['write_points'])
+                stats.probe('operations', nops)
+        if err is None:
+            return []
+        ops = fm.jsonable(Machine.LAST.ops)
+        c2 = dict(case)
+        c2['ops'] = ops
+        out = self.evaluate(c2, None)
+        if not out:
+            raise RuntimeError(f'hypothesis failure did not replay: {err} ops={ops}')
+        return out
+
+    def sample(self, case):
+        from . import fsstore_machine as fm
+        return {'hypothesis_seed': case['hyp_seed'], 'note': 'operation sequences are drawn by Hypothesis from this seed',
+                'example_ops': [['ctx', 'm', 'p'], ['save', 0, 'a.b', {'k': [1, None]}, 'json'], ['load', 0, 'a'],
+                                ['save_faults', 0, 'a*', [0, 'x'], 'pickle']]}
+
+
+PROPS = {c.id: c for c in (C01, C02, C03, C04, C05, C06, C07, C08, C09, C10, C11, C12, C13, C14, C17, C18, C19)}
 
 
 def get_prop(pid, tier='quick'):
